@@ -257,14 +257,31 @@ def run(ctx):
     # ------------------------------------------------------------------ rule 4
     init = repo.func(f"{T}.__init__")
     ctor = [c for c in walk_no_nested(init) if isinstance(c, ast.Call) and unparse(c.func) == "AsyncFIXConnection"]
+    # by role, whatever locals the constructor goes through: I = the initiator connection, SI = its session, A = the acceptor
+    asg = [n for n in walk_no_nested(init) if isinstance(n, ast.Assign) and len(n.targets) == 1]
+    conn_param = next((a.arg for a in init.args.args if a.arg not in ("self", "schema")), "connection")
+    I = {conn_param} | {unparse(n.targets[0]) for n in asg if unparse(n.value) == conn_param}
+    SI = {f"{i}._session" for i in I} | {unparse(n.targets[0]) for n in asg if unparse(n.value) in {f"{i}._session" for i in I}}
+    A = {unparse(n.targets[0]) for n in asg if isinstance(n.value, ast.Call) and unparse(n.value.func) == "AsyncFIXConnection"}
+    changed = True
+    while changed:
+        changed = False
+        for n in asg:
+            if unparse(n.value) in A and unparse(n.targets[0]) not in A:
+                A.add(unparse(n.targets[0]))
+                changed = True
     ok = False
     if len(ctor) == 1:
         kws = {k.arg: unparse(k.value) for k in ctor[0].keywords}
-        ok = kws.get("target_comp_id", "").endswith("_session.sender_comp_id") and kws.get("sender_comp_id", "").endswith("_session.target_comp_id")
+        ok = kws.get("target_comp_id", "") in {f"{s_}.sender_comp_id" for s_ in SI} and kws.get("sender_comp_id", "") in {f"{s_}.target_comp_id" for s_ in SI}
     ctx.instance(R4, "FIXTester.__init__[acceptor = AsyncFIXConnection with mirrored CompIDs]", ok,
                  "the simulated acceptor is not the library's own connection class constructed with the initiator's CompIDs swapped", loc(init))
-    src = [unparse(s) for s in walk_no_nested(init) if isinstance(s, ast.Assign)]
-    cross = "self.conn_accept._session.next_num_out = connection._session.next_num_in" in src and "self.conn_accept._session.next_num_in = connection._session.next_num_out" in src
+    src = [(unparse(s_.targets[0]), unparse(s_.value)) for s_ in asg]
+
+    def crosswise(dst, srcattr):
+        return any(t in {f"{a}._session.{dst}" for a in A} and v in {f"{s_}.{srcattr}" for s_ in SI} for t, v in src)
+    writes = [t for t, v in src if any(t == f"{a}._session.{c}" for a in A for c in ("next_num_out", "next_num_in"))]
+    cross = crosswise("next_num_out", "next_num_in") and crosswise("next_num_in", "next_num_out") and len(writes) == 2
     ctx.instance(R4, "FIXTester.__init__[counters initialised crosswise]", cross, "the acceptor's counters are not initialised crosswise from the initiator's", loc(init))
     # fed only through _process_message; no session logic of its own
     feeds = []
